@@ -17,7 +17,7 @@ open Proto Grid RoundOps
       extra  <lb> <delta> <dec> <grid>          -> <lb'> <grid'> | ERR
       obj    <arr> <delta> <dec:int> <ops>      -> state after the constructor and after every operation, `;`-separated:
                                                    `<lb>|<delta>|<grid>` or ERR (raising operation, object unchanged);
-                                                   ops: `x` extra bins, `l:<x>` lower_bound setter, `g:<arr>` grid setter
+                                                   ops: `x` extra bins, `l:<x>` lower_bound setter, `g:<arr>` grid setter, `c` continue with a copy
       decs   <x>                                -> <n>
       arange <start> <stop> <step>              -> <list>
       frange <start> <stop> <delta>             -> <list>                      (array built by from_range)
@@ -153,6 +153,7 @@ def fObj (o : PGObj Float) : String := s!"{fF o.G.lb}|{fF o.G.delta}|{fListD fF 
 
 def pOp (s : String) : Option (PGOp Float) :=
   if s == "x" then some .extra
+  else if s == "c" then some .copy
   else match s.splitOn ":" with
     | ["l", x] => some (.setLowerBound (pF x))
     | ["g", arr] => some (.setGrid (pList pF arr))
@@ -161,7 +162,7 @@ def pOp (s : String) : Option (PGOp Float) :=
 def objRun (o : PGObj Float) : List (PGOp Float) → List String × List String
   | [] => ([], [])
   | op :: rest =>
-    let tag := match op with | .extra => "obj:extra" | .setLowerBound _ => "obj:set-lower-bound" | .setGrid _ => "obj:set-grid"
+    let tag := match op with | .extra => "obj:extra" | .setLowerBound _ => "obj:set-lower-bound" | .setGrid _ => "obj:set-grid" | .copy => "obj:copy"
     match o.step op with
     | some o' => let r := objRun o' rest; (fObj o' :: r.1, tag :: r.2)
     | none => let r := objRun o rest; ("ERR" :: r.1, (tag ++ "-raises") :: r.2)
